@@ -4,7 +4,7 @@
      split*: net.SplitHostPort(result) as computed by Go (only meaningful for class 0)
    stdout: one line per disagreement:  MISMATCH kind hex(input) details...
            final line: SUMMARY n=<cases> mismatches=<k> ok=<a> empty=<b> invalid=<c> range=<d> pinned=<p> *)
-open Gsmodel
+open Model
 open Util
 
 let () =
